@@ -55,7 +55,7 @@ theorem setPeriodPlan_some {s : State} {a : String} {t p : Nat} {tn : Tenant} (h
 
 theorem depositPlan_some {s : State} {a : String} {t : Nat} {amt : Option Int} {d : Str} {p : Nat × Bank} (h : depositPlan s a t amt d = some p) :
     ∃ acc x tn, decodeAcc a = some acc ∧ amt = some x ∧ 0 < x ∧ validDenom d = true ∧ findTenant s.st.tenants t = some tn ∧ tn.mint = false ∧
-      s.bank.send acc (treasuryName t) d x.toNat = some p.2 ∧ p.1 = x.toNat := by
+      s.bank.send (.acct acc) (treasuryName t) d x.toNat = some p.2 ∧ p.1 = x.toNat := by
   simp only [depositPlan, bind, Option.bind_eq_some_iff, check_eq_some, Bool.and_eq_true, decide_eq_true_eq, Bool.not_eq_true', pure, Option.pure_def, Option.some.injEq] at h
   obtain ⟨acc, hacc, x, hx, _, ⟨hv, hpos⟩, tn, htn, _, hm, b, hb, hp⟩ := h
   subst hp
